@@ -427,8 +427,53 @@ func judgeC03(c c03Case) (v core.Verdict) {
 	}
 	if o.Out != want {
 		v.Failf("files %q (delims %+v): got %q want %q", files, c.Delims, o.Out, want)
+		return
+	}
+	// the same template into a destination that has nothing but a Write method and breaks after some bytes: what
+	// it accepted is the beginning of the output, and when the template ends in text that could not be delivered
+	// any more, Execute says so
+	if n := len(c.Segs); n > 0 && c.Segs[n-1].Kind == "text" && strings.HasSuffix(want, c.Segs[n-1].Text) && c.Segs[n-1].Text != "" {
+		k := (len(want) - 1) * (1 + len(c.Junk)%7) / 8 // somewhere before the last byte
+		w := &c03Breaking{left: k}
+		t, og := jetrun.Get(jetrun.NewStyledSet(files, c.Reader, c.Delims.Options()...), entry)
+		if og.Failed() {
+			return
+		}
+		var err error
+		func() {
+			defer func() {
+				if r := recover(); r != nil {
+					err = fmt.Errorf("PANIC: %v", r)
+				}
+			}()
+			err = t.Execute(w, nil, nil)
+		}()
+		v.Label("destination-without-WriteByte-that-breaks")
+		if err == nil {
+			v.Failf("files %q: the destination broke after %d of %d bytes, the template ends in text, yet Execute returned nil (destination has %q)", files, k, len(want), w.got)
+		} else if strings.HasPrefix(err.Error(), "PANIC") || !strings.HasPrefix(want, string(w.got)) {
+			v.Failf("files %q: the destination broke after %d bytes: %v; it has %q, which is not the beginning of %q", files, k, err, w.got, want)
+		}
 	}
 	return
+}
+
+// c03Breaking is a destination with a Write method and nothing else; it accepts left bytes and fails from then on.
+type c03Breaking struct {
+	left int
+	got  []byte
+}
+
+func (w *c03Breaking) Write(b []byte) (int, error) {
+	if len(b) <= w.left {
+		w.left -= len(b)
+		w.got = append(w.got, b...)
+		return len(b), nil
+	}
+	n := w.left
+	w.left = 0
+	w.got = append(w.got, b[:n]...)
+	return n, fmt.Errorf("destination broke")
 }
 
 func TestC03(t *testing.T) {
